@@ -288,6 +288,12 @@ func Drive(w *world.World, rd io.Reader, o Opts) *Transcript {
 	return DriveSchema(schema, w, rd, o, tr)
 }
 
+// Beat, when set (worker processes), is called every 1024 Reads of a drive: progress of the documented
+// read loop is a sign of life for the orchestrator's hang watchdog (a thorough C17 run reads 200 000
+// records; on a loaded machine that can take longer than the hang limit). A Read that does not
+// return still stops the beats.
+var Beat func()
+
 // DriveSchema is Drive with an already created schema.
 func DriveSchema(schema omniparser.Schema, w *world.World, rd io.Reader, o Opts, tr *Transcript) *Transcript {
 	if tr == nil {
@@ -308,6 +314,9 @@ func DriveSchema(schema omniparser.Schema, w *world.World, rd io.Reader, o Opts,
 	}
 	delivered := 0
 	for i := 0; ; i++ {
+		if i&1023 == 1023 && Beat != nil {
+			Beat()
+		}
 		if i >= max {
 			tr.HitReadLimit = true
 			break
